@@ -369,7 +369,19 @@ def stateless_constructs(chk, repo, rule):
                     """does the access path ``e`` lead into a part of the context that outlives the record?"""
                     cur = e
                     through = False
-                    while isinstance(cur, (ast.Attribute, ast.Subscript)):
+                    while isinstance(cur, (ast.Attribute, ast.Subscript, ast.Call)):
+                        if isinstance(cur, ast.Call):
+                            # context.get("_params") / context.get("_params", {}) / getattr(context, "_params")
+                            f_ = cur.func
+                            if isinstance(f_, ast.Attribute) and f_.attr in ("get", "__getitem__", "setdefault") and cur.args and isinstance(cur.args[0], ast.Constant) and cur.args[0].value in SHARED:
+                                through = True
+                                cur = f_.value
+                                continue
+                            if isinstance(f_, ast.Name) and f_.id == "getattr" and len(cur.args) >= 2 and isinstance(cur.args[1], ast.Constant) and cur.args[1].value in SHARED:
+                                through = True
+                                cur = cur.args[0]
+                                continue
+                            break
                         if isinstance(cur, ast.Attribute) and cur.attr in SHARED:
                             through = True
                         if isinstance(cur, ast.Subscript) and isinstance(cur.slice, ast.Constant) and cur.slice.value in SHARED:
